@@ -3,6 +3,8 @@
 PROPS = {}
 HOOK_COMMITS = ["4bf9c3e", "fb2c1fb"]
 NOT_APPLICABLE = {}
+# properties whose check exists but is being brought in line with repairs just made in /repo: not claimed until green
+PENDING = {"C16": "not yet claimed: the check exists (./check C16) but its Lean model is being updated to the six C16 repairs just committed in /repo"}
 
 PROPS["C19"] = {
     "gen": ["gen_color_table.py"],
@@ -424,8 +426,9 @@ PROPS["C14"] = {
     "level_text": "proof (full, on the model): form_mode_independent (form, placed objects, built and panic flags are the same function of "
                   "the document in all three modes — the form is fixed before the mode switch and the evaluation cell is idempotent: "
                   "cell_state_is_route, evaluate_idem); reject_iff_empty_generate (both directions, via rejectEntry = [] ⇔ evalConst and "
-                  "¬evalConst ⇒ a binding or a diagnostic in the C++ pass); omit_errors_subset_generate (sublist, also for reject) with "
-                  "generate_only_errors_are_cxx / reject_only_errors_are_rej; header_only_generate",
+                  "¬evalConst ⇒ a binding or a diagnostic in the C++ pass); omit_errors_eq_generate (preview mode reports exactly the diagnostics of generate mode, in the same order: since /repo c47e7fb it "
+                  "builds the support code for its diagnostics and discards it), hence omit_errors_subset_generate (the property's clause) and "
+                  "omit_accepted_iff_generate; common_errors_in_every_mode; reject_only_errors_are_rej; header_only_generate",
     "level_note": "trusted: Lean kernel; the hand-written pass model tied by exact comparison in all three modes on generated clean and "
                   "faulted documents; the real-header emptiness test is a token scan",
     "technique": "Lean 4 proof (the mode switch only reads the state left by the shared passes) + 3-mode differential correspondence + byte "
@@ -436,25 +439,28 @@ PROPS["C20"] = {
     "gen": ["gen_pseudo_props.py"],
     "lean": ["QV.Props.C20"],
     "streams": ["c20"],
-    "rule": "each case is a clean document of the C04 generator with one fault (20 kinds × sampled positions; 4 per document in the quick "
+    "rule": "each case is a clean document of the C04 generator with one fault (22 kinds × sampled positions; 4 per document in the quick "
             "tier). c20-local (oracle, on a variant where a third of the unreferenced objects are anonymous): omit mode yields a form; "
             "the planted error is reported with its range inside the planted binding (for the kinds the preview passes can see); the "
             "XML tree of the faulted run equals the tree of the fault-free run (document without the faulty binding / with the "
             "unknown-typed object removed) outside the faulted object's own property/attribute/addaction/item-model children, "
             "generated names compared up to renumbering; the faulted object has no property the fault-free one lacks (except the "
-            "empty group of a planted member). passes (model): the omit-mode result of the faulted document vs the Lean model",
+            "empty group of a planted member). for every case the document is also translated in generate mode and every error generate "
+            "mode reports inside the planted binding must be reported in omit mode (fails with 'error reported in generate mode only' if "
+            "c47e7fb is reverted). passes (model): the omit-mode result of the faulted document vs the Lean model",
     "trusted_base": ["hand-written model QV.Model.Passes (shared with C04/C14); QV.Model.Layout (C12) for the cell cursor witness",
                      "harness/src/xml.rs and the canonicalisation of generated names (any name that is not an id of the document ↦ '_')"],
     "assumptions": [
-        "'every error is still reported' is read as: recovery loses no diagnostic of the passes that run in preview mode "
-        "(errors_not_lost); errors only the C++ pass can see (return type of a dynamic binding, missing READ/WRITE of a dynamic "
-        "target) are by construction absent in omit mode (C14: omit errors ⊆ generate errors) — replay: `text: srcSpin.value`",
-        "two clauses of 'identical outside the faulted object' are refuted: (1) an entering faulty binding next to "
-        "`separator: true` turns the static separator into an action (fault_local_full_refuted); (2) a duplicated attached binding "
+        "F21 (errors only UiSupportCode::build detects were not reported in preview mode) is repaired in /repo c47e7fb; "
+        "runOmitOld_loses_error keeps the pre-repair behaviour as a kernel-checked example, "
+        "corpus/C20/dynamic_mismatch_unreported_in_omit.c20.req is a passing regression case",
+        "two clauses of 'identical outside the faulted object' are refuted (known findings): (1, F20) an entering faulty binding next to "
+        "`separator: true` turns the static separator into an action (fault_local_full_refuted); (2, F19) a duplicated attached binding "
         "empties the child's whole attached map, so following siblings of a grid/form layout move "
         "(duplicate_attached_shifts_sibling_witness); both replayed from corpus/C20",
     ],
-    "level_text": "proof (partial: two clauses refuted): omit_yields_form; errors_not_lost / unresolved_objects_reported; "
+    "level_text": "proof (partial: two clauses refuted): omit_yields_form; every_error_reported (full statement proved: every diagnostic "
+                  "generate mode reports is reported in omit mode; omit_diags_eq_generate) with errors_not_lost / unresolved_objects_reported; "
                   "fault_local_rejected_binding (+ callback, + unknown attached type): a binding rejected while the code maps are built "
                   "changes nothing anywhere and is reported; fault_local_failing_constant_partial (ill-typed constant on a non-action "
                   "object: form unchanged); fault_local_duplicate_binding / fault_local_duplicate_attached (the form equals that of the "
@@ -563,4 +569,130 @@ PROPS["C03"] = {
                   "primitives; F6, F7, F8 were genuine defects, repaired in /repo (2f8ccf9, 9b906e0, 568b1aa), witnesses in corpus/C03",
     "technique": "Lean 4 proof (constant folder = denotational spec per operator, number-literal parser = ECMAScript MV) + "
                  "specification-judged differential check of the real .ui",
+}
+
+PROPS["C16"] = {
+    "gen": ["gen_rust_debug_table.py"],
+    "lean": ["QV.Props.C16"],
+    "streams": ["c16"],
+    "rule": "c16-compile (oracle): batches of generated documents (operator/builtin probes: every operator of docs/language.md x "
+            "11 operand types x dynamic/constant operands in binding and callback position, Math.max/min, casts, ternaries, "
+            "console.*, subscripts, lists, methods, float/integer literals; documents with 0..130 bindings; gadget sub-bindings "
+            "(QFont, QSizePolicy); colliding name prefixes; the shared rich_document generator; inventory documents with "
+            "arbitrary string literals) translated by the real pipeline in generate mode, every ACCEPTED header compiled with "
+            "g++ -std=c++17 -fsyntax-only together with a mini-uic ui_*.h against declarations generated by "
+            "tools/gen_mock_decls.py from the SAME tweaked metatypes on cxx/qtmock.h; c16-scan (oracle): token scan of the real "
+            "header (each this->setup/update/eval/on call has exactly one definition, definitions pairwise distinct and all used, "
+            "BindingIndex enumerators distinct = number of update functions, each update uses its own enumerator, bindingGuard_[N] "
+            "with N = ceil(n/32) >= 1 iff n > 0 and indexed by index >> 5 only, observer arrays non-empty, owned by one function "
+            "and larger than every observed[k], std::max/min => <algorithm>, qDebug.. => <QtDebug>, exactly the ui_ include); "
+            "c16-inv (model): header inventory of the real header (includes, setup() calls, index enum, member functions in "
+            "order, guard size, observer arrays, spelled literals) = Lean model; c16-lit (model): spelling of a source string "
+            "in the real header = Model.formatStringLiteral; c16-literals (oracle): every emitted spelling compiled AND RUN, the "
+            "UTF-16 units / bytes printed by the program = the source string; spec-cxxlit (spec): g++'s reading of 2400 random "
+            "spellings (incl. ill-formed ones) = Spec.CxxLit.decode16/decode8; distinct = distinct requests",
+    "trusted_base": [
+        "g++ 12 (-std=c++17) as the C++ compiler; cxx/qtmock.h + cxx/QtDebug: hand-written mock of the documented Qt 5 API "
+        "(QString/QStringLiteral, QFlags + Q_DECLARE_OPERATORS_FOR_FLAGS as in qflags.h of Qt 5, QList != QVector, "
+        "QObject::connect(sender, pmf, context, functor) with Qt's sender/argument-prefix checks, QOverload, QDebug incomplete "
+        "without <QtDebug>, Q_ASSERT_X, qInf/qQNaN)",
+        "tools/gen_mock_decls.py: classes/enums/flags/properties (READ/WRITE members)/signals/slots/methods from the tweaked "
+        "metatypes dumped by the harness; argument passing convention (class types by const reference) is Qt's convention, "
+        "not recorded in metatypes; default-argument signal families are merged into one member with default arguments",
+        "tools/mini_uic.py: Ui::<Class> with one typed pointer per named widget/layout/spacer/action except the root (expat)",
+        "harness token scanner of the header; the generator's pretty-printer and its abstract description of each inventory "
+        "document (which bindings are dynamic, observer counts, builtin uses, literals)",
+        "QV.Model.RustDebugTable: which characters Rust's Debug prints as \\u{..}: 909 ranges measured on the installed "
+        "toolchain (regenerated by tools/gen_rust_debug_table.py on every run); literal_roundtrip_partial holds for ANY table",
+        "QV.Spec.CxxLit written from [lex.string]/[lex.ccon]; out-of-range numeric escapes (implementation-defined) count as "
+        "ill-formed and are not generated; validated against g++ by the spec-cxxlit cases",
+    ],
+    "assumptions": [
+        "'a C++17 compiler accepts the header' is decided by running g++ on generated documents (correspondence by nature, no theorem)",
+        "Qt 5 semantics of the mock (the metatypes in contrib/ are Qt 5): QFlags has only operator| for two enumerators, QVector is not QList",
+        "the model takes bindings in visiting order (sorted by key: C08) and summarises expression code by ExprInfo; the C++ "
+        "statements inside function bodies are C01/C06's subject",
+        "uigen accepts gadget maps only for the gadget classes it knows (QFont, QSizePolicy, ...): deeper nesting than "
+        "property.member cannot be produced through the real pipeline and is covered by the theorem only",
+        "clauses refuted today: literal_roundtrip (F3b), ops_subset_cxx (F3a), builtin_calls_welltyped (F13); compile-only findings F16-F19",
+    ],
+    "level_text": "proof (partial): issued_names_distinct / fn_names_distinct - over the whole sequence of generate calls of "
+                  "UiSupportCode::build (all objects, gadget sub-bindings whose prefixes are built from generated names, callbacks) no "
+                  "name is issued twice and the setup/update/eval/on member functions are pairwise distinct (corollary of C10's "
+                  "generate_fresh); index_per_binding; guard_large_enough + guard_slots_distinct + guard_decl ((n+31)/32 words, "
+                  "index>>5 inside, (word,bit) injective, no zero-length array); observer_arrays_large_enough; includes_cover; "
+                  "literal_roundtrip_partial - for ANY Unicode table, every string without \\u{..}-escaped characters and without "
+                  "NUL-before-octal-digit is read back by the C++17 literal reader as itself; the full statements literal_roundtrip, "
+                  "ops_subset_cxx, builtin_calls_welltyped are refuted by kernel-checked witnesses (F3b, F3a, F13). Compilability "
+                  "is checked by g++ on every accepted generated header.",
+    "level_note": "trusted: Lean kernel; model tied by exact comparison of header inventories and literal spellings (quick: 1448 model "
+                  "cases, 0 disagreements) and Spec.CxxLit tied to g++ (2400 spellings, 0 disagreements); compile oracle: quick tier "
+                  "about 1600 accepted documents in 60 translation units; findings on the unfixed code: F3a, F3b, F13 (expected) and "
+                  "F16 (inf literal), F17 (bitwise operators on enumerations), F18 (pointer < null), F19 (enumerator typed as its "
+                  "QFlags alias); fixes proposed in .work/C16.fix-1..7.diff, each passes the unedited suite",
+    "technique": "Lean 4 proof (freshness invariant threaded through the build loop, tag injectivity, shift/mask arithmetic, "
+                 "state-machine literal reader round trip) + refutation witnesses + differential correspondence + compile-and-run "
+                 "oracle with g++ against declarations generated from the same metatypes",
+}
+
+PROPS["C02"] = {
+    "gen": ["gen_verif_env.py"],
+    "lean": ["QV.Props.C02"],
+    "streams": ["c02"],
+    "rule": "each case derives from a generated binding program over the verification classes VBase/VDerived/VOther "
+            "(harness/metatypes/verif.json; objects a,b:VBase, o:VOther, dv:VDerived; binding on object a) emphasising reads "
+            "through chains of pointer properties (a.next.next.i, b.next.peer.n, o.base.next.s), through locals, locals assigned "
+            "in different branches/blocks, ternaries selecting objects, reads inside non-taken branches and switch bodies, null "
+            "guards, constant (k), read-only-with-notify (ro), notify-less (nn), write-only (wo) properties, method results "
+            "(a.pick(0).i), this/implicit this, derived-class objects; compiled by the REAL pipeline (uigen::build → tir::build, "
+            "analyze_code_property_dependency) and observed through the read-only hook. "
+            "(pred coveredcheck) the REAL post-analysis IR of every accepted binding passes the Lean checker `covered` (every "
+            "pointer read of a non-constant property is statically connected or observed by a preceding ObserveProperty on the "
+            "same unmodified local; observer handles pairwise distinct and < observer count; no notify-less read survives) and "
+            "every planted read of `nn` is rejected with 'unobservable property'; "
+            "(oracle c02-header) token scan of the REAL uisupport header: one QObject::connect line per distinct static dep in "
+            "setup<B>(), the observer snippet with the right index/local/signal before the read, observer array size, setup() "
+            "calls every setup… before the first update…; "
+            "(pred c02-history) the REAL IR is executed by the Lean abstract signal/slot world (QV.Model.Observe: setup, then a "
+            "random history of 10–30 value changes / re-pointings / nullings over a random initial world incl. null pointers and "
+            "cycles); after setup and after every step the target must equal a fresh evaluation of the IR in the current state and "
+            "every non-constant property that evaluation read must have a live connection",
+    "trusted_base": ["harness/src/irser.rs serialises the real IR (public qmluic::tir types) — a wrong serialiser would hide a defect",
+                     "QV.Gen.VerifEnv is dumped from the real type map on every run (PropInfo of the change steps; "
+                     "notify_choice_verifEnv is re-proved against it by kernel evaluation)",
+                     "harness/src/streams/c02.rs header scanner (textual) for the IR → C++ step of the subscriptions",
+                     "QV.Driver.Observe.pureEval: the operators of the history-safe sub-language (int + - *, comparisons, "
+                     "&& || !, string +, pointer ==/!=); other rvalues make the history case end as undefined, never pass wrongly"],
+    "assumptions": ["Qt semantics assumed by the abstract world (QV.Model.Observe header): direct connections in one thread; "
+                    "QObject::connect returns a handle that is true until disconnected; QObject::disconnect(handle) removes "
+                    "exactly that connection and invalidates the handle; a default-constructed handle is false; emitting a "
+                    "notify signal runs, before the setter returns, the slot of at least one connection that was live when the "
+                    "emission started (any number ≥ 1 of runs is covered: Delivered); a setter that changes the value emits the "
+                    "NOTIFY signal declared in the metatypes",
+                    "outside the abstract world: queued connections, threads, deletion of observed/sender objects (the "
+                    "'observer.object may point to deleted object' comment), re-entrant changes made by the binding's own "
+                    "evaluation (writes / impure methods inside a binding), several bindings forming a loop (debug guard)",
+                    "a pointer returned by a METHOD (a.pick(0).i) is observed for the property read through it, but a later "
+                    "change of what the method returns is not a property change and is outside the property text",
+                    "the emitted C++ follows the IR statement by statement (C16/C01 tie; c02-header checks the subscription part)"],
+    "level_text": "proof over the abstract world + proof about the model of propdep.rs + translation validation of every real IR: "
+                  "propdep_covers — for EVERY IR without observe statements, if analyze_code_property_dependency (model) reports no "
+                  "diagnostic and no panic its output passes `covered`; binding_current/binding_subscribed — for every covered body, "
+                  "after setup() and after ANY finite history of property changes with notification (incl. re-pointing and nulling of "
+                  "intermediate pointers, changes of unread and notify-less properties, extra slot runs from stale observers) along "
+                  "which the expression stays defined, target = value of the body in the current state and every read of the last "
+                  "evaluation is subscribed (invariant by induction; frame lemma; re-attachment rule of the emitted snippet); "
+                  "stepFn_step — the executable step used on real IR is a step of the relation; unobservable_rejected / "
+                  "unobservable_body_rejected — a pointer read of a non-constant notify-less property yields the diagnostic; "
+                  "notify_choice (+ notify_choice_verifEnv on the regenerated table) — find_notify_signal returns the most-argument "
+                  "eligible signal overload.",
+    "level_note": "partial: (1) Qt's real signal delivery is assumed, not verified (see assumptions); (2) the IR fragment of "
+                  "binding_current treats operators/casts/builtins/pure method calls as an arbitrary deterministic function of operand "
+                  "values and excludes writes inside bindings and evaluations revisiting a block (the language has no loops; the "
+                  "history stream would report such IR as undefined, C06 covers the CFG); (3) the link model-of-propdep ↔ real "
+                  "propdep.rs is the exact-IR correspondence of stream `ir` (C06) plus `coveredcheck` on every real IR here — no "
+                  "theorem about the Rust source; (4) gadget-map sub-bindings (font.bold: …) share the same code path "
+                  "(CxxEvalExprFunction) but are not generated by stream c02",
+    "technique": "Lean 4 proofs (coverage of the dependency analysis; invariant of an abstract signal/slot world) + checker with "
+                 "soundness proof applied to every real IR + execution of real IR in the abstract world on random histories + header scan",
 }
